@@ -26,6 +26,7 @@ type MsgOpts struct {
 	ForceMethod string
 	NoExtras    bool // only the fingerprinted / mandatory headers
 	ValidStatus bool // replies use status codes 100..699 only
+	ManyHdrs    bool // 10..50 additional header lines (long header blocks)
 }
 
 type hdrKind struct {
@@ -204,6 +205,19 @@ func (g *G) Msg(o MsgOpts) MsgSpec {
 		}
 		for r := g.R.Intn(4); r > 0; r-- {
 			items = append(items, hdrKind{long: ""}) // unknown header
+		}
+	}
+	if o.ManyHdrs {
+		for r := g.R.Range(10, 50); r > 0; r-- {
+			if g.R.Chance(1, 2) {
+				items = append(items, hdrKind{long: ""})
+			} else {
+				k := knownHdrs[g.R.Intn(len(knownHdrs))]
+				if k.long == "Content-Length" {
+					k = knownHdrs[4] // the Content-Length header is placed below, deliberately
+				}
+				items = append(items, k)
+			}
 		}
 	}
 	// shuffle
